@@ -18,7 +18,7 @@ def run(m):
     r=subprocess.run(['gcc','-c','-O2','-DNDEBUG','-Wall','-Wextra','-pedantic','-Werror','-I'+d+'/src',p,'-o',d+'/cat.o'],capture_output=True,text=True)
     if r.returncode: return name,'NOCOMPILE',r.stderr[-300:]
     out=[]
-    env=dict(os.environ, CATSA_REPO=d, CATSA_JOBS='4', CATSA_EVID=d+'/evid', CATSA_CACHE=d+'/cache')
+    env=dict(os.environ, CATSA_REPO=d, CATSA_JOBS=os.environ.get('CATSA_JOBS','4'), CATSA_EVID=d+'/evid', CATSA_CACHE=d+'/cache')
     res=[]
     for pr in props:
         r=subprocess.run(['/verif/check',pr],capture_output=True,text=True,env=env,timeout=3000)
@@ -28,6 +28,6 @@ def run(m):
     shutil.rmtree(d, ignore_errors=True)
     return name,' '.join(res),'\n'.join(out)
 ms=[m for m in MUT if not only or m[0] in only]
-with cf.ThreadPoolExecutor(4) as ex:
+with cf.ThreadPoolExecutor(int(os.environ.get("MUT_PAR","4"))) as ex:
     for name,res,out in ex.map(run, ms):
         print('==',name,res); print(out)
